@@ -82,6 +82,42 @@ def run(ctx: Context) -> None:
         ctx.check('R20.1', ok, "on a match, all four groups become box(*map(float, groups)) in order", fi, boxes[0] if boxes else fi.node,
                   construct=f"{fi.short}: " + (norm_text(boxes[0]) if boxes else 'no box() call'))
 
+    # ---- R20.1 the word reaches the grammar at all
+    with ctx.section('R20.1 argparse'):
+        import re as _re20
+        n_pos = 0
+        for fi in p.functions.values():
+            if fi.name != 'add_arguments' or not fi.qualname.startswith('emsarray.cli.'):
+                continue
+            for c in calls_in(fi):
+                if not (isinstance(c.func, ast.Attribute) and c.func.attr == 'add_argument' and c.args):
+                    continue
+                t = kwarg(c, 'type')
+                first = const_value(c.args[0], None)
+                if t is None or not isinstance(first, str) or first.startswith('-'):
+                    continue
+                if (callee(ctx, fi, ast.Call(func=t, args=[], keywords=[])) or p.qualify(t, fi) or '') not in (f"{CU}.geometry_argument", f"{CU}.bounds_argument"):
+                    continue
+                n_pos += 1
+                # argparse reads a word starting with '-' as an option unless parser._negative_number_matcher matches it
+                sets = [n for n in walk_no_nested(fi.node) if isinstance(n, ast.Assign) and isinstance(n.targets[0], ast.Attribute)
+                        and n.targets[0].attr == '_negative_number_matcher' and norm_text(n.targets[0].value) == norm_text(c.func.value) and n.lineno < c.lineno]
+                ok, why = False, 'argparse default: only a word that is one whole negative number is an argument'
+                if len(sets) == 1 and isinstance(sets[0].value, ast.Call) and callee(ctx, fi, sets[0].value) == 're.compile' and sets[0].value.args:
+                    pat = const_value(sets[0].value.args[0], None)
+                    if isinstance(pat, str):
+                        try:
+                            rx = _re20.compile(pat)
+                            must = ['-10,50,5,60', '-1.5,-8,3,2', '-.5,-8,3,2', '-180,-90,180,90', '-1', '-0.25']
+                            must_not = ['--work_dir', '-v', '-h', '--help', '-f', '-']
+                            bad = [w for w in must if not rx.match(w)] + [w for w in must_not if rx.match(w)]
+                            ok, why = not bad, (f"matcher {pat!r} folded over {len(must) + len(must_not)} words" if not bad else f"matcher {pat!r} wrong for {bad}")
+                        except _re20.error as exc:
+                            why = f"matcher does not compile: {exc}"
+                ctx.check('R20.1', ok, "a bounds word that starts with a negative number ('-10,50,5,60': any region west of Greenwich or south of the equator) reaches the bounds grammar: "
+                          "the parser is told that such words are arguments, while option flags stay options", fi, c, construct=why)
+        ctx.need('R20.1', n_pos >= 1, "a command takes a geometry as a positional argument", ga)
+
     # ---- R20.2
     with ctx.section('R20.2'):
         for fi in (ga, ba):
@@ -355,6 +391,8 @@ _EG = 'src/emsarray/cli/commands/export_geometry.py'
 _CL = 'src/emsarray/cli/commands/clip.py'
 _EP = 'src/emsarray/cli/commands/extract_points.py'
 VARIANTS = [
+    V('C20', 'negative-bounds-read-as-option', _CL, "        parser._negative_number_matcher = re.compile(r'^-(\\d|\\.\\d)')  # type: ignore\n", "", 'R20.1'),
+    V('C20', 'every-dash-word-is-an-argument', _CL, "re.compile(r'^-(\\d|\\.\\d)')", "re.compile(r'^-')", 'R20.1'),
     V('C20', 'time-variable-not-checked', 'src/emsarray/cli/commands/extract_points.py', "        if time_name not in point_data.variables:\n            time_name = None\n", "", 'R20.5'),
     V('C20', 'match-reintroduced', _CU, "    bounds_match = bounds_re.fullmatch(argument_string)", "    bounds_match = bounds_re.match(argument_string)", 'R20.1'),
     V('C20', 'bounds-argument-match', _CU, "    match = bounds_re.fullmatch(bounds_string)", "    match = bounds_re.match(bounds_string)", 'R20.1'),
